@@ -28,14 +28,21 @@ class C14(Prop):
             lv = rng.choice(sc.LEVELS)
             n = rng.randint(1, 5)
             pairs = [sc.gen_pair(rng, kind, h, lv) for _ in range(n)]
-            yield {"stream": "scale", "kind": kind, "h": h, "level": lv, "c": rng.choice([0.125, 0.5, 2.0, 4.0, 32.0]),
+            yield {"stream": "scale", "kind": kind, "h": h, "level": lv, "c": rng.choice([0.125, 0.5, 2.0, 4.0, 32.0, 2.0**-30, 2.0**-40, 2.0**30]),
                    "y": [p[0] for p in pairs], "z": [p[1] for p in pairs]}
         for k in range(N // 3):
             kind = rng.choice(["squared_error", "poisson", "gamma", "pinball"])
             lv = rng.choice(sc.LEVELS)
             n = rng.randint(1, 5)
             pairs = [sc.gen_pair(rng, kind, 0.0, lv) for _ in range(n)]
-            yield {"stream": "named", "kind": kind, "h": 0.0, "level": lv, "y": [p[0] for p in pairs], "z": [p[1] for p in pairs]}
+            c = {"stream": "named", "kind": kind, "h": 0.0, "level": lv, "y": [p[0] for p in pairs], "z": [p[1] for p in pairs]}
+            if rng.random() < 0.35:
+                # integer-typed arrays, unsigned with z < y and narrow signed ones
+                c["dtype"] = rng.choice(["uint8", "uint32", "int16", "int32"])
+                hi = {"uint8": 200, "uint32": 70000, "int16": 300, "int32": 60000}[c["dtype"]]
+                c["y"] = [float(rng.randint(1, hi)) for _ in range(n)]
+                c["z"] = [float(rng.randint(1, hi)) for _ in range(n)]
+            yield c
         for k in range(N // 3):
             kind = rng.choice(["hes", "hqs"])
             h = rng.choice(sc.HES_DEGREES if kind == "hes" else sc.HQS_DEGREES)
@@ -48,11 +55,22 @@ class C14(Prop):
             lv = rng.choice(sc.LEVELS)
             pairs = [sc.gen_pair(rng, kind, -1.0, lv) for _ in range(3)]  # positive pairs
             pairs = [(abs(y) + 0.5, abs(z) + 0.5) for y, z in pairs]
+            pairs = [p for p in pairs if sc.far_enough(*p)] or [(1.5, 2.5)]  # keep out of the cancellation regime
             yield {"stream": "limit", "kind": kind, "h": h0, "level": lv, "y": [p[0] for p in pairs], "z": [p[1] for p in pairs]}
 
     def impl(self, case):
         k, h, lv, y, z = case["kind"], case["h"], case["level"], case["y"], case["z"]
         base = sc.call_score(k, h, lv, y, z)
+        if case.get("dtype"):
+            import numpy as np
+            from .core import exc_class
+
+            try:
+                sf = sc.make_sf(k, h, lv)
+                per = sf.score_per_obs(np.array(y).astype(case["dtype"]), np.array(z).astype(case["dtype"]))
+                base = {"per_obs": [float(v) for v in np.asarray(per, dtype=float)]}
+            except Exception as e:
+                base = {"err": exc_class(e)}
         if "err" in base:
             return base
         out = dict(base)
@@ -102,7 +120,8 @@ class C14(Prop):
                 return f"{what}: call failed"
             for i, (u, v) in enumerate(zip(other, vals)):
                 s = sc.scale(k, h, lv, case["y"][i], case["z"][i])
-                if not abs(u - factor * v) <= rel * abs(factor) * (s if rel < 1e-6 else abs(v)) + (1e-11 * abs(factor) * s):
+                if not (abs(u - factor * v) <= rel * abs(factor) * (s if rel < 1e-6 else abs(v)) + (1e-11 * abs(factor) * s)
+                        or abs(u - factor * v) <= max(rel, 1e-9) * max(abs(u), abs(factor * v))):
                     return f"{what}: {u!r} vs {factor * v!r} (y={case['y'][i]}, z={case['z'][i]})"
             return None
 
